@@ -194,9 +194,20 @@ def check_create_solution(solutes, solvent, res, solv_after=None):
         if found is None:
             M.violate(['C19'], 'INSTR', 'C19:create_solution_solvent_container_amount_missing',
                       {'instructions': text, 'solvent': solvent.name, 'drawn_base_units': actual})
-        elif not token_matches(found, actual, _noise(drawn).get(found[2], 0.0)):
+        elif not token_matches(found, actual, _noise(drawn).get(found[2], 0.0) + abs(actual.get(found[2], 0.0)) * _container_solvent_relres(solvent)):
             M.violate(['C19'], 'INSTR', 'C19:create_solution_solvent_container_amount_wrong',
-                      {'instructions': text, 'solvent': solvent.name, 'stated': list(found[:3]), 'drawn_base_units': actual})
+                      {'instructions': text, 'solvent': solvent.name, 'stated': list(found[:3]), 'drawn_base_units': actual,
+                       'solvent_before': {'volume': solvent.volume, 'contents': {s_.name: a_ for s_, a_ in solvent.contents.items()}},
+                       'solvent_after': {'volume': solv_after.volume, 'contents': {s_.name: a_ for s_, a_ in solv_after.contents.items()}}})
+
+
+def _container_solvent_relres(solvent):
+    """create_solution reads a solvent container through observers that round to 10^-precision in *mol* and in *mL*
+    (DESIGN.md section 15, item 4): what it draws - and states - carries these relative quanta."""
+    q = R.cfg().q
+    mol = R.measure(solvent.contents, 'mol')
+    mL = R.measure(solvent.contents, 'L') * 1e3
+    return 2 * ((q / mol if mol > 0 else 0.0) + (q / mL if mL > 0 else 0.0))
 
 
 def check_solution_from(source, solvent, src_after, new):
